@@ -87,6 +87,9 @@ def nontrivial(case):
     return False
 
 
+SIZE_NAMES = []  # size constants found in mokapot.parsers.fasta (set in run(), inherited by the forked workers)
+
+
 # --- one case ---------------------------------------------------------------------------------
 def check_case(case, acc, d):
     """Run make_decoys on one case (files under directory d), judge it, return a hash of the output."""
@@ -109,7 +112,14 @@ def check_case(case, acc, d):
     try:
         if case["seed"] is not None:
             np.random.seed(case["seed"])
-        mokapot.make_decoys(paths if len(paths) > 1 else paths[0], out, decoy_prefix=prefix,
+        if case.get("sizes"):
+            import mokapot.parsers.fasta as _fa
+            from mc.datasets import Sized
+            with Sized(_fa, case["sizes"], SIZE_NAMES):
+                mokapot.make_decoys(paths if len(paths) > 1 else paths[0], out, decoy_prefix=prefix,
+                                    enzyme=ENZYME, reverse=reverse, concatenate=concat)
+        else:
+            mokapot.make_decoys(paths if len(paths) > 1 else paths[0], out, decoy_prefix=prefix,
                             enzyme=ENZYME, reverse=reverse, concatenate=concat)
         with open(out, encoding="utf-8") as fh:
             text = fh.read()
@@ -247,7 +257,12 @@ def worker(item):
                 acc.case(key=hash(json.dumps(case)), nontrivial=True, outcome=h, sample=case if step == 1 and item[1] == 0 else None)
                 acc.count("history")
         return acc
+    sizes = None
+    if item[0] == "sized":
+        sizes, item = item[1], item[2]
     for case in cases_of(item):
+        if sizes:
+            case = dict(case, sizes=sizes)
         nt = nontrivial(case)
         h = check_case(case, acc, d)
         acc.case(key=hash(json.dumps(case)), nontrivial=nt, outcome=h,
@@ -278,6 +293,14 @@ def run(ctx):
         items.append(("wrap", n, MODES_FULL))
     for first in seqs("ACK", 4 if ctx.quick else 5, 1):
         items.append(("dupname", first, 4 if ctx.quick else 5))
+    # every chunk / batch size constant the FASTA module has, set to 1..3 (none on the pinned tree: empty dimension)
+    import mokapot.parsers.fasta as _fa
+    from mc.datasets import size_constants
+    SIZE_NAMES[:] = size_constants(_fa)
+    if SIZE_NAMES:
+        small = [it for it in items if it[0] in ("twofile", "dupname", "format") or (it[0] == "single" and it[1] <= 4)]
+        items += [("sized", v, it) for v in (1, 2, 3) for it in small]
+    ctx.info["size_constants"] = list(SIZE_NAMES)
     # call histories in one process (shuffle then reverse and vice versa); first so that the pool's processes are fresh
     items = [("history", j) for j in range(24)] + items
     ctx.pmap(worker, items, chunksize=1)
